@@ -8,6 +8,11 @@ k("C15",
   "DESIGN.md 4 C15")
 
 NA.update({
+ "C07": "refinement loop/colour maps are HashMap<String,..>/SipHash code (std HashMap does not finish in CBMC); the IsoTerm sub-mechanism runs the recursive default Term::eq/cmp on quoted triples, which did not finish (900 s / 14 GB) — DESIGN.md 5",
+ "C10": "SimpleTermIndex is a HashMap keyed by heap-owning SimpleTerms; the simplest clone/drop harness did not finish in 18 min (std HashMap) / 5 min (association-vector model); no solver verdict available — DESIGN.md 5",
+ "C14": "the ORDER BY path is the whole SPARQL evaluator (see C13); the loop-free numeric kernel timed out in Kani at 40 min (float casts) and the MIR->SMT translator that would decide it was not built — DESIGN.md 5",
+ "C17": "every formulation running oxiri's resolver on a symbolic reference exceeded 18-26 min / 7-15 GB; without the resolver there is no oracle inside the solver — DESIGN.md 5",
+ "C19": "std::path::Components on symbolic strings: the 2-byte LocalLoader::get harness timed out at 45 min — DESIGN.md 5",
  "C06": "RDFC-1.0 conformance needs SHA-2, string-keyed maps and format! on symbolic data plus an executable spec: beyond CBMC/SMT reach (probe: _cnq::nq on one symbolic char >14 min)",
  "C12": "JSON-LD round trip runs through the json-ld crate (async expansion, ~40 kLOC) and string-keyed HashMaps: not encodable within any useful bound",
  "C13": "whole SPARQL evaluator over spargebra trees with Arc<str> stashes and boxed iterator chains; no loop-free kernel carries the property",
